@@ -368,6 +368,18 @@ def match_contract(ctx, F, b, R, effs, link, calls):
         if ok:
             ok = _all_or_nothing(ctx, cfg, site + '#ATTACH', ins + slot + leaf, 'links would not mirror / flag would disagree with the children')
         if ok:
+            # the caller gets the index of the node just stored (it builds on it: chains, traversals, compositions)
+            R_ = Resolver(b)
+            oks = []
+            for _, e_ in R_.return_expr():
+                alts_ = e_[2] if e_[0] == 'phi' else (e_,)
+                for a_ in alts_:
+                    if a_[0] == 'agg' and isinstance(a_[1], tuple) and len(a_[1]) > 2 and a_[1][2] == 'Ok' and a_[2]:
+                        oks.append(s(a_[2][0]))
+            if oks and any(x != s(newkey) for x in oks):
+                ctx.bad('C12.R2', site + '#ATTACH:returns', 'the index handed back is not the index of the node just stored', b.span)
+                ok = False
+        if ok:
             ctx.ok('C12.R2', site + '#ATTACH', 'insert(TreeNode::new(v, Some(p))); p.children[l] := Some(new) under empty-slot test; p.isleaf := false', b.span)
         return True
     # ---------------- SPLICE
